@@ -1,6 +1,7 @@
 package sym
 
 import (
+	"time"
 	"fmt"
 	"go/types"
 	"strings"
@@ -70,6 +71,9 @@ func registerTime(e *Engine) {
 		if d.Const && d.Signed() <= 0 {
 			return c.Return(c.Args[0])
 		}
+		if d.Const && t.Const {
+			return c.Return(timeVal(BVC(uint64(t.Signed()-t.Signed()%d.Signed()), 64)))
+		}
 		// r = t - (t mod d) as a relational model: r <= t < r + d, r ≡ 0 (mod d)
 		// (multiples tracked through an uninterpreted quotient to avoid bvurem)
 		r := FreshVar("trunc", SBV, 64)
@@ -86,7 +90,28 @@ func registerTime(e *Engine) {
 		return c.Return(timeVal(r))
 	}
 	e.Intr["(time.Time).Format"] = func(c *Call) []*State {
+		if t, l := timeExt(c.Args[0]), c.argTerm(1); t.Const && l.Const {
+			// exact for concrete instants (time.Local = UTC assumed)
+			return c.Return(StrC(time.Unix(0, t.Signed()).UTC().Format(l.S)))
+		}
 		return c.Return(c.E.timeFormat(c.St, timeExt(c.Args[0]), c.argTerm(1)))
+	}
+	e.Intr["time.ParseInLocation"] = func(c *Call) []*State {
+		l, v := c.argTerm(0), c.argTerm(1)
+		if l.Const && v.Const {
+			t, err := time.ParseInLocation(l.S, v.S, time.UTC)
+			if err != nil {
+				return c.Return(Tuple{timeVal(BVC(0, 64)), c.E.newErrorString(c.St, StrC(err.Error()))})
+			}
+			return c.Return(Tuple{timeVal(BVC(uint64(t.UnixNano()), 64)), Iface{}})
+		}
+		// symbolic text: Parse(Format(t, layout), layout) = t truncated to the layout's resolution is not
+		// tracked; the result is an arbitrary instant or an error
+		ok := FreshVar("time.parse.ok", SBool, 0)
+		c.St.Nondets = append(c.St.Nondets, NondetRec{Tag: "time.parse.ok", Kind: "bool", Term: ok})
+		tv := FreshVar("time.parsed", SBV, 64)
+		c.St.Assume(BVSle(BVC(0, 64), tv))
+		return c.Outcomes(c.sol2(), []Outcome{{Cond: ok, Ret: Tuple{timeVal(tv), Iface{}}}, {Cond: Not(ok), Ret: Tuple{timeVal(BVC(0, 64)), c.E.newErrorString(c.St, StrC("parsing time: invalid"))}}})
 	}
 	e.Intr["(time.Time).UTC"] = func(c *Call) []*State { return c.Return(c.Args[0]) }
 	e.Intr["(time.Time).Local"] = func(c *Call) []*State { return c.Return(c.Args[0]) }
